@@ -693,6 +693,38 @@ def _loops(fn):
     return out
 
 
+def _loop_invariant_bindings(loop, fn):
+    """`t = x.a` / `n = len(x.a) - 1` bound once before the loop (a local for a repeatedly read attribute): the
+    binding is put in front of the loop body, so the body reads what the name stands for"""
+    inside = {id(n) for n in ast.walk(loop)}
+    stores = {}
+    for n in ast.walk(fn):
+        if isinstance(n, ast.Name) and isinstance(n.ctx, (ast.Store, ast.Del)):
+            stores.setdefault(n.id, []).append(n)
+    attr_stores = {n.attr for n in ast.walk(fn) if isinstance(n, ast.Attribute) and isinstance(n.ctx, (ast.Store, ast.Del))}
+    read = {n.id for s in loop.body for n in ast.walk(s) if isinstance(n, ast.Name) and isinstance(n.ctx, ast.Load)}
+    out = []
+    for st in ast.walk(fn):
+        if not (isinstance(st, ast.Assign) and len(st.targets) == 1 and isinstance(st.targets[0], ast.Name)):
+            continue
+        name = st.targets[0].id
+        if name not in read or id(st) in inside or st.lineno >= loop.lineno or len(stores.get(name, [])) != 1:
+            continue
+        ok = True
+        for n in ast.walk(st.value):
+            if isinstance(n, ast.Call):
+                ok = ok and isinstance(n.func, ast.Name) and n.func.id == "len" and not n.keywords
+            elif isinstance(n, ast.Attribute):
+                ok = ok and n.attr not in attr_stores
+            elif isinstance(n, ast.Name):
+                ok = ok and not any(id(x) in inside for x in stores.get(n.id, []))
+            elif not isinstance(n, (ast.Constant, ast.BinOp, ast.operator, ast.expr_context)):
+                ok = False
+        if ok and not isinstance(st.value, (ast.Constant, ast.Name)):
+            out.append(st)
+    return sorted(out, key=lambda s_: s_.lineno)
+
+
 def _compare_loop_bodies(cur_f, ref_f):
     cl, rl = _loops(cur_f.node), _loops(ref_f.node)
     if len(cl) != len(rl):
@@ -701,16 +733,17 @@ def _compare_loop_bodies(cur_f, ref_f):
     for a, b in zip(cl, rl):
         if ast.dump(ast.Module(body=a.body, type_ignores=[])) == ast.dump(ast.Module(body=b.body, type_ignores=[])):
             continue
-        def bound(loop):
+        def bound(loop, fn):
             # the loop variable is a bound name: both bodies see the current element under one and the same name
+            pre = _loop_invariant_bindings(loop, fn)
             if isinstance(loop, ast.For):
                 bind = ast.Assign(targets=[loop.target], value=ast.Name(id="__ELEMENT__", ctx=ast.Load()))
                 ast.fix_missing_locations(ast.copy_location(bind, loop))
-                return [bind] + list(loop.body)
-            return list(loop.body)
+                return pre + [bind] + list(loop.body)
+            return pre + list(loop.body)
 
         try:
-            ta, tb = block_table(bound(a), unroll=0, fi=cur_f, max_paths=3000), block_table(bound(b), unroll=0, fi=ref_f, max_paths=3000)
+            ta, tb = block_table(bound(a, cur_f.node), unroll=0, fi=cur_f, max_paths=3000), block_table(bound(b, ref_f.node), unroll=0, fi=ref_f, max_paths=3000)
         except AnalysisError as e:
             raise AnalysisError(f"{cur_f.key}: the body of the loop at line {a.lineno} changed and is too large for a decision table ({e}): needs re-review")
         out += [(k, f"loop@{_norm_atom(u(b.target) if isinstance(b, ast.For) else u(b.test))[:30]}:{t}", n, w) for k, t, n, w in compare_tables(ta, tb)]
